@@ -1,1 +1,3 @@
+pub mod config;
+pub mod dsl;
 pub mod field;
